@@ -29,7 +29,7 @@ CONSTANTS Deviations,      \* subset of AllDevs
           InputMenu,       \* set of input declarations: sequences of shapes; dims: literal | 1001.. named | 2001.. unnamed
           MaxNodes,
           Vals,            \* values every free dim is bound to
-          Rich,            \* 1: reduced menus (exhaustive runs)  2: full menus (simulation)
+          Rich,            \* 0: Shape/Add/Abs only (vacuity cfg)  1: reduced menus (exhaustive runs)  2: full menus (simulation)
           Chain            \* TRUE: node k+1 must consume the output of node k (exhaustive runs reach depth 4)
 
 VARIABLES ins, nodes, meta, stage, pc, phase, cur, sshape, cval, symmap, dec, rep,
@@ -262,10 +262,10 @@ VecVals == {i \in IntVals : meta[i].rank = 1}
 MetaI(rank, len) == [k |-> "i", rank |-> rank, len |-> len]
 MetaF(rank) == [k |-> "f", rank |-> rank, len |-> -1]
 
-ShapeRanges == IF Rich = 1 THEN {<<0, NONE>>, <<0, 1>>, <<1, NONE>>}
+ShapeRanges == IF Rich = 0 THEN {<<0, 1>>} ELSE IF Rich = 1 THEN {<<0, NONE>>, <<0, 1>>, <<1, NONE>>}
                ELSE {<<0, NONE>>, <<0, 1>>, <<1, NONE>>, <<-1, NONE>>, <<1, 2>>, <<0, -1>>}
 GatherIdx == IF Rich = 1 THEN {<<0>>, <<1>>, <<1, 0>>} ELSE {<<0>>, <<1>>, <<-1>>, <<2>>, <<1, 0>>, <<0, 0>>, <<-1, 0>>}
-ArithConsts == IF Rich = 1 THEN {<<-2>>, <<1>>} ELSE {<<-2>>, <<-1>>, <<1>>, <<0>>, <<2>>}
+ArithConsts == IF Rich = 0 THEN {<<-2>>} ELSE IF Rich = 1 THEN {<<-2>>, <<1>>} ELSE {<<-2>>, <<-1>>, <<1>>, <<0>>, <<2>>}
 ConcatConsts == IF Rich = 1 THEN {<<-1>>, <<1>>} ELSE {<<-1>>, <<1>>, <<0>>, <<2>>, <<1, -1>>}
 ReshapeConsts == IF Rich = 1 THEN {<<-1>>, <<0, -1>>} ELSE {<<-1>>, <<0, -1>>, <<-1, 0>>, <<0, 0>>, <<-1, 2>>, <<1, -1>>, <<2, -1, 1>>}
 ExpandConsts == IF Rich = 1 THEN {<<1>>, <<2, 1>>} ELSE {<<1>>, <<3>>, <<1, 1>>, <<2, 1>>, <<1, 3>>, <<2, 1, 1>>}
@@ -298,12 +298,12 @@ GenGather == Building /\ \E s \in VecVals, ix \in GatherIdx, sc \in {0, 1}, ax \
               /\ sc = 1 => (Len(ix) = 1 /\ Rich = 2)
               /\ ax = 0 => Rich = 2               \* Gather without an explicit axis attribute
               /\ Push(Node("Gather", <<R(s), C(ix)>>, <<sc, ax>>), IF sc = 1 THEN MetaI(0, 1) ELSE MetaI(1, Len(ix)))
-GenArithI == Building /\ \E op \in (IF Rich = 1 THEN {"Add"} ELSE {"Add", "Sub", "Mul"}), s \in IntVals,
+GenArithI == Building /\ \E op \in (IF Rich <= 1 THEN {"Add"} ELSE {"Add", "Sub", "Mul"}), s \in IntVals,
                             o \in IntOperands \cup {C(c) : c \in ArithConsts} :
               /\ (o.t = "r" => o.i >= s)          \* commutative pairs once (Sub: both orders only with consts)
               /\ (LenOf(o) = meta[s].len \/ LenOf(o) = 1 \/ meta[s].len = 1)
               /\ Push(Node(op, <<R(s), o>>, <<>>), MetaI(Max2(meta[s].rank, RankOf(o)), Max2(meta[s].len, LenOf(o))))
-GenUnaryI == Building /\ \E op \in (IF Rich = 1 THEN {"Abs", "Cast"} ELSE {"Abs", "Cast", "Neg", "Identity"}), s \in IntVals :
+GenUnaryI == Building /\ \E op \in (IF Rich = 0 THEN {"Abs"} ELSE IF Rich = 1 THEN {"Abs", "Cast"} ELSE {"Abs", "Cast", "Neg", "Identity"}), s \in IntVals :
               Push(Node(op, <<R(s)>>, IF op = "Cast" THEN <<7>> ELSE <<>>), meta[s])
 GenCast32 == Building /\ \E s \in IntVals : Push(Node("Cast", <<R(s)>>, <<6>>), [meta[s] EXCEPT !.k = "j"])
 GenCastBack == Building /\ \E s \in {i \in 1..Len(meta) : meta[i].k = "j"} : Push(Node("Cast", <<R(s)>>, <<7>>), [meta[s] EXCEPT !.k = "i"])
@@ -342,8 +342,9 @@ GenSliceD == Building /\ \E x \in FocusData, ax \in {0, 1}, r \in SliceRanges :
               /\ ax < meta[x].rank
               /\ Push(Node("Slice", <<R(x)>>, <<ax>> \o r), meta[x])
 
-Gen == \/ GenShape \/ GenSize \/ GenGather \/ GenArithI \/ GenUnaryI \/ GenCast32 \/ GenCastBack \/ GenConcatI \/ GenConcat3 \/ GenSqueezeI
-       \/ GenReshapeI \/ GenSliceI \/ GenUnaryD \/ GenAddD \/ GenReshapeD \/ GenExpandD \/ GenConcatD \/ GenSliceD
+Gen == \/ GenShape \/ GenArithI \/ GenUnaryI
+       \/ (Rich >= 1 /\ (\/ GenSize \/ GenGather \/ GenCast32 \/ GenCastBack \/ GenConcatI \/ GenConcat3 \/ GenSqueezeI \/ GenReshapeI
+                         \/ GenSliceI \/ GenUnaryD \/ GenAddD \/ GenReshapeD \/ GenExpandD \/ GenConcatD \/ GenSliceD))
 
 -----------------------------------------------------------------------------
 (* one pass of FoldConstantsPass.visit_graph *)
@@ -588,7 +589,7 @@ MenuSim == MenuQuick \cup MenuTwo \cup
            {<< <<N, M, K>> >>, << <<N, 1, M>> >>, << <<U1, N>>, <<U2, N>> >>, << <<N, M>>, <<N, K>> >>, << <<2, N>>, <<N>> >>,
             << <<N, M>>, <<N, M>> >>, << <<1, N>>, <<M, 1>> >>, << <<U1, U2, 2>> >>, << <<N, N>> >>, << <<0, N>>, <<M, N>> >>}
 MenuThorough == MenuQuick \cup MenuTwo \cup {<< <<U1, U2>> >>, << <<2, 3>> >>, << <<N, 4>> >>}
-MenuChain == {<< <<N>> >>, << <<1>> >>}
-MenuVac == {<< <<N>> >>}
+MenuChain == {<< <<N>> >>}
+MenuChainT == MenuQuick \cup {<< <<U1, U2>> >>, << <<N, 1>> >>}
 ValsStd == {0, 1, 2, 3, 7}
 =============================================================================
